@@ -34,6 +34,10 @@ var witnesses = []witness{
 		op: "DISTINCT", observed: "2 non-NULL output rows for 1 '='-classes; class of row ids {1,2} appears 2 times; output [(s:a) (s:A)]"},
 	{id: "C07-distinct-collation", l: vcAI, r: vcAI, lv: []string{"'a'"}, rv: []string{"'A'"}, inList: []string{"'q'"},
 		op: "UNION", observed: "2 non-NULL output rows [(s:a) (s:A)], the '='-classes of the two inputs require 1"},
+	{id: "C07-distinct-collation", l: vcAI, r: vcAI, inList: []string{"'q'"},
+		lv: []string{"'Á'", "'ab'", "'AB'", "NULL", "NULL", "'ab'", "'AB'", "'aB'", "'aB'", "'A'", "'ab'"},
+		rv: []string{"NULL", "'A'", "'á'", "'a'", "'b'", "'Á'", "'ab'", "'á'", "'Á'", "NULL", "NULL"},
+		op: "IN subquery (filter)", observed: "IN is TRUE for row ids [1 1 1 1 2 3 6 7 8 9 10 10 10 10 11], 'l = r' is TRUE for some r exactly for row ids [1 2 3 6 7 8 9 10 11]"},
 	{id: "C07-countdistinct-key", l: vcAI, r: vcAI, lv: []string{"'a'", "'A'"}, rv: []string{"'x'", "'x'"}, inList: []string{"'q'"},
 		op: "COUNT(DISTINCT)", observed: "result [(n:2)], number of '='-classes 1"},
 	{id: "C07-countdistinct-key", l: vcBin, r: vcBin, lv: []string{"'a,'", "'a'"}, rv: []string{"'b'", "',b'"}, inList: []string{"'q'"},
